@@ -148,6 +148,7 @@ type fataler interface {
 func failCase(t fataler, doc replayDoc, v *drv.Violation) {
 	doc.Violation = v.Msg
 	p := writeReplay(doc)
+	drv.SetFailing()
 	t.Fatalf("VIOLATION-FOUND property=%s replay=%s\n%s", doc.Property, p, v.Msg)
 }
 
